@@ -36,7 +36,7 @@ def mc_all(cfg_suffix, fams=FAMS, cfg_override=None):
 
 def run_direct_property(prop, eps, sizes, nrandom, want_default, extra_must=None, mc_suffix=None,
                         cfg_override=None, lifts=1, evidence_extra=None, reject_is_violation=None,
-                        rows_fn=None, fams=FAMS, decl_filter=None, nshards=4, const_twins=False, extra_mc=(), sweeps=False):
+                        rows_fn=None, fams=FAMS, decl_filter=None, nshards=4, const_twins=False, extra_mc=(), sweeps=False, generic_history=False):
     """Generic driver: model-check the four family slices, replay a seeded sample of the TLC-enumerated
     declarations (every enumerated input and more) into freshly generated code, validate the recorded
     trace against the specification."""
@@ -132,6 +132,8 @@ def run_direct_property(prop, eps, sizes, nrandom, want_default, extra_must=None
             sweep_info = {"declarations": len(alive_sw), "constructor_calls": VL.sweep_stats.get("calls", 0),
                           "cell_classes_observed": VL.sweep_stats.get("cell_classes", 0),
                           "domains": "every value of i8/u8/i16/u16; every one of the 2^32 f32 bit patterns" if not test else "TEST RANGE (2^26 patterns)"}
+    if generic_history:
+        generic_instantiation_history(prop, verdict, stats)
     if not_evaluated:
         verdict.notes.append("%d declarations did not compile and were not evaluated: %s" % (
             len(not_evaluated), json.dumps(dict(list(not_evaluated.items())[:3]))[:400]))
@@ -167,6 +169,81 @@ def run_direct_property(prop, eps, sizes, nrandom, want_default, extra_must=None
     return verdict.finish(ev, t.s())
 
 
+GENERIC_MODULE = """
+pub trait Lim { const CAP: usize; }
+impl Lim for i32 { const CAP: usize = 3; }
+impl Lim for u8 { const CAP: usize = 0; }
+
+#[nutype(
+    validate(predicate = |v| v.len() <= T::CAP),
+    derive(Debug, Clone, PartialEq, Default, TryFrom),
+    default = vec![T::default()]
+)]
+pub struct Nt<T: Lim + Default + Clone>(Vec<T>);
+
+fn enc_u8s(v: Vec<u8>) -> Value { Value::Array(v.iter().map(|x| Value::String(x.to_string())).collect()) }
+fn dec_u8s(v: &Value) -> Vec<u8> { v.as_array().unwrap().iter().map(|x| x.as_str().unwrap().parse::<u8>().unwrap()).collect() }
+
+pub fn call(ep: &str, inp: &Value) -> (Value, Value) {
+    match ep {
+        "default_a" => (guard(|| ok(<Nt<i32> as Default>::default().into_inner().enc())), Value::Null),
+        "default_b" => (guard(|| ok(enc_u8s(<Nt<u8> as Default>::default().into_inner()))), Value::Null),
+        "try_new_a" => { let x: Vec<i32> = <Vec<i32> as Dec>::dec(inp); (guard(|| res(Nt::<i32>::try_new(x).map(|t| t.into_inner()))), Value::Null) }
+        "try_new_b" => { let x: Vec<u8> = dec_u8s(inp); (guard(|| match Nt::<u8>::try_new(x) { Ok(t) => ok(enc_u8s(t.into_inner())), Err(e) => err_dbg(&e) }), Value::Null) }
+        "try_from_a" => { let x: Vec<i32> = <Vec<i32> as Dec>::dec(inp); (guard(|| res(<Nt<i32> as TryFrom<Vec<i32>>>::try_from(x).map(|t| t.into_inner()))), Value::Null) }
+        _ => (json!({"k": "noep"}), Value::Null),
+    }
+}
+"""
+
+
+def generic_instantiation_history(prop, verdict, stats):
+    """C03 (generic declarations): one generic newtype whose predicate depends on the type parameter through a trait
+    constant, instantiated at i32 (default valid) and u8 (default invalid), with the entry points called in an
+    interleaved order - state shared between instantiations (a function-local static, a cache) would show here."""
+    from .tlc import validate_trace_chunks
+    d = {"id": "gen_hist", "fam": "any", "ty": "Vec<T>", "module_override": GENERIC_MODULE, "san": [], "vmode": "std", "val": [], "traits": [], "dflt": []}
+    vals = [[], ["0"], ["1", "2"], ["1", "2", "3"], ["1", "2", "3", "4"]]
+    seq = [("default_a", [None]), ("default_b", [None]), ("default_a", [None]), ("default_b", [None]),
+           ("try_new_a", vals), ("try_new_b", vals), ("default_b", [None]), ("try_from_a", vals), ("default_a", [None]), ("default_b", [None])]
+
+    def rows_of(_d):
+        return [{"d": "gen_hist", "ep": ep, "ins": ins} for (ep, ins) in seq]
+    obs, rejected, alive = CV.build_and_run(prop.lower() + "_generic", [d], rows_of, ["serde"], ["serde"], nshards=1)
+    if rejected:
+        verdict.notes.append("generic history declaration did not compile: %s" % json.dumps(rejected)[:300])
+        return
+    def mdecl(cap):
+        return {"fam": "any", "ty": "Vec<T>", "san": [], "vmode": "std", "traits": ["Default", "TryFrom"],
+                "val": [{"k": "predicate", "b": 0, "fn": "len_le", "p": [cap], "sp": "lit"}], "dflt": [[0]]}
+    table = {"gen_a": mdecl(3), "gen_b": mdecl(0)}
+    events, index = [], []
+    for line in open(obs[0]):
+        o = json.loads(line)
+        which = "gen_a" if o["ep"].endswith("_a") else "gen_b"
+        ep = o["ep"][:-2]
+        ins, outs, raw = [], [], []
+        for (inp, out, x) in o["b"]:
+            ins.append({"ok": True, "v": []} if ep == "default" else {"ok": True, "v": [[int(v) for v in inp]]})
+            k = out.get("k")
+            outs.append({"k": "ok", "v": [[int(v) for v in out["v"]]], "e": ""} if k == "ok" else
+                        {"k": "err", "v": [], "e": out["e"]} if k == "err" else {"k": k, "v": [], "e": ""})
+            raw.append((inp, out, x))
+        events.append({"d": which, "ep": ep, "ins": ins, "outs": outs, "envs": []})
+        index.append((which, o["ep"], raw))
+    summary, bad, drift, states = validate_trace_chunks("Trace_Value", "Trace_Value.cfg", "trace_" + prop.lower() + "_generic", events, table, nchunks=1)
+    stats["trace_pairs"] = stats.get("trace_pairs", 0) + summary["pairs"]
+    stats["trace_events"] = stats.get("trace_events", 0) + summary["events"]
+    stats["trace_states"] = stats.get("trace_states", 0) + states
+    for (l, i, obj) in bad:
+        which, ep, raw = index[l]
+        inp, out, _x = raw[i - 1]
+        verdict.violation({"property": prop, "decl": "gen_hist/" + which, "family": "any", "ty": "Vec<T>", "ep": ep, "input": inp, "observed": out,
+                           "declarative_outcome": obj["want"], "tag": "generic_instantiation_history", "declaration": GENERIC_MODULE,
+                           "summary": "generic Nt<T> instantiated at %s: %s(%s) observed %s, declarative statement demands %s (event %d of the interleaved history)" % (
+                               "i32 (CAP=3)" if which == "gen_a" else "u8 (CAP=0)", ep, json.dumps(inp), json.dumps(out), json.dumps(obj["want"]), l + 1)})
+
+
 def variant_reject(msgs):
     return any(("E0004" in m or "no variant" in m or "E0599" in m) for m in msgs)
 
@@ -183,7 +260,7 @@ def check_C03():
     q = tier() == "quick"
     sizes = {"int": 60, "float": 40, "string": 60, "any": 40} if q else {"int": 300, "float": 200, "string": 300, "any": None}
     eps = {"try_from", "from", "try_from_ref", "from_ref", "from_str_s", "default", "try_new", "new"}
-    return run_direct_property("C03", eps, sizes, 30 if q else 200, True)
+    return run_direct_property("C03", eps, sizes, 30 if q else 200, True, generic_history=True)
 
 
 def check_C07():
